@@ -131,33 +131,33 @@ def _check_levels(p, q):
     g = _resolve(parents)
     db = _build(parents)
     if db.count_features_of_type() != N:
-        return "stored %s features, expected %d" % (db.count_features_of_type(), N)
+        return hx.msg("stored %s features, expected %d", db.count_features_of_type(), N)
     for xi in range(N):
         x = IDS[xi]
         e1, e2 = _l1(g, xi), _l2(g, xi)
         both = sorted(set(e1) | set(e2))
         g1, g2, gg = _ids(db.children(x, level=1)), _ids(db.children(x, level=2)), _ids(db.children(x))
         if g1 != _names(e1):
-            return "children(%s, level=1) = %s, Parent graph says %s" % (x, g1, _names(e1))
+            return hx.msg("children(%s, level=1) = %s, Parent graph says %s", x, g1, _names(e1))
         if g2 != _names(e2):
-            return "children(%s, level=2) = %s, Parent graph says %s" % (x, g2, _names(e2))
+            return hx.msg("children(%s, level=2) = %s, Parent graph says %s", x, g2, _names(e2))
         if gg != _names(both):
-            return "children(%s) = %s, Parent graph says %s" % (x, gg, _names(both))
+            return hx.msg("children(%s) = %s, Parent graph says %s", x, gg, _names(both))
         for lvl in (1, 2, None):
             ps = _ids(db.parents(x, level=lvl))
             exp = [y for y in range(N) if xi in (_l1(g, y) if lvl == 1 else _l2(g, y) if lvl == 2
                                                   else set(_l1(g, y)) | set(_l2(g, y)))]
             if ps != _names(exp):
-                return "parents(%s, level=%s) = %s, Parent graph says %s" % (x, lvl, ps, _names(exp))
+                return hx.msg("parents(%s, level=%s) = %s, Parent graph says %s", x, lvl, ps, _names(exp))
     groups = list(db.iter_by_parent_childs(featuretype="gene"))
     genes = [IDS[i] for i in range(N) if TYPES[i] == "gene"]
     if [grp[0].id for grp in groups] != genes:
-        return "iter_by_parent_childs heads %s, expected %s" % ([grp[0].id for grp in groups], genes)
+        return hx.msg("iter_by_parent_childs heads %s, expected %s", [grp[0].id for grp in groups], genes)
     for grp in groups:
         xi = IDS.index(grp[0].id)
         exp = _names(set(_l1(g, xi)) | set(_l2(g, xi)))
         if sorted(f.id for f in grp[1:]) != exp:
-            return "iter_by_parent_childs(%s) members %s, expected %s" % (grp[0].id, [f.id for f in grp[1:]], exp)
+            return hx.msg("iter_by_parent_childs(%s) members %s, expected %s", grp[0].id, [f.id for f in grp[1:]], exp)
     return None
 
 
